@@ -28,6 +28,21 @@ STREAMS = [RowStream()]
 from .. import e2e, e2e_streams as es
 
 
+def joined_parts(out, r):
+    """the first-pass and second-pass records (files _1/_2 of the `all` run) a main-file record may have been joined from"""
+    allm = out['modes'].get('all', {}).get('files', {})
+    p1 = [x for x in allm.get('_1', {}).get('rows', []) if x['q'] == r['q'] and x['r'] == r['r'] and x['ori'] == r['ori']]
+    p2 = [x for x in allm.get('_2', {}).get('rows', []) if x['q'] == r['q'] and x['r'] == r['r'] and x['ori'] == r['ori']]
+    if not p1 or not p2:
+        return None
+    a, b = p1[0], p2[0]
+    union = set(map(tuple, a['pairs'])) | set(map(tuple, b['pairs']))
+    mine = [tuple(p) for p in r['pairs']]
+    if set(mine) <= union and mine != [tuple(p) for p in a['pairs']] and mine != [tuple(p) for p in b['pairs']]:
+        return a, b
+    return None
+
+
 class Files(es.E2EStream):
     name = 'e2e_files'
 
@@ -35,8 +50,16 @@ class Files(es.E2EStream):
         errs = es.run_failures(out)
         refs, qs = es.maps_of(out)
         for m, fk, r in es.all_records(out):
-            e2e.check_record_matching(r, refs, qs, errs, tag='[mode %s file %s] ' % (m, fk))
-        return errs[:4]
+            e = []
+            e2e.check_record_matching(r, refs, qs, e, tag='[mode %s file %s] ' % (m, fk))
+            if e and fk == 'main' and m in ('best', 'joined', 'all') and r['pairs'] and joined_parts(out, r) is not None:
+                # open finding F10: the multi-pass join resolves segments[0] of the two parts without the chain admissibility the resolver relies on
+                e = [x + ' [JOINED-RECORD: join of the first-pass and second-pass records of this query; both parts are valid]' for x in e]
+            errs.extend(e)
+        return errs[:6]
+
+    def finding(self, case, out, viol):
+        return 'F10' if '[JOINED-RECORD:' in viol else None
 
 
 class Candidates(es.CandidateStream):
